@@ -219,6 +219,27 @@ htp_status_t htp_gzip_decompressor_decompress(htp_decompressor_t *drec1, htp_tx_
             dout.data = NULL;
         }
         dout.is_last = d->is_last;
+
+        if (dout.len > 0) {
+            // The stream ended without the decompressor having seen its end, and there
+            // is decompressed data waiting. Hand it out as data first: whoever is next
+            // still has to be told that the stream is over, with the usual NULL chunk.
+            if (drec->super.next != NULL && drec->zlib_initialized) {
+                callback_rc = htp_gzip_decompressor_decompress(drec->super.next, &dout);
+            } else {
+                callback_rc = drec->super.callback(&dout);
+            }
+            if (callback_rc != HTP_OK) {
+                htp_gzip_decompressor_end(drec);
+                return callback_rc;
+            }
+
+            drec->stream.next_out = drec->buffer;
+            drec->stream.avail_out = GZIP_BUF_SIZE;
+            dout.data = NULL;
+            dout.len = 0;
+        }
+
         if (drec->super.next != NULL && drec->zlib_initialized) {
             return htp_gzip_decompressor_decompress(drec->super.next, &dout);
         } else {
